@@ -1,6 +1,11 @@
 package checks
 
 import (
+	"bytes"
+	"fmt"
+	"os"
+	"path/filepath"
+	"sort"
 	"strings"
 
 	"github.com/go-git/go-git/v6/plumbing"
@@ -53,8 +58,191 @@ func gitRefnameOK(s string) bool {
 	return comps >= 2
 }
 
+func c13HasAtComponent(s string) bool {
+	for _, p := range strings.Split(s, "/") {
+		if p == "@" {
+			return true
+		}
+	}
+	return false
+}
+
+// c13BatchEligible reports whether real git can be asked about name through a packed-refs file: git refuses to read
+// the whole file ("packed refname is dangerous") when a name is not under refs/ or has an empty, "." or ".."
+// component, and a line cannot hold LF or NUL.
+func c13BatchEligible(name string) bool {
+	rest, ok := strings.CutPrefix(name, "refs/")
+	if !ok || rest == "" || strings.ContainsAny(name, "\n\x00") {
+		return false
+	}
+	for _, p := range strings.Split(rest, "/") {
+		if p == "" || p == "." || p == ".." {
+			return false
+		}
+	}
+	return true
+}
+
+// c13GitBatch asks real git about many names with one process per chunk: the names are written as the lines of a
+// packed-refs file of a scratch repository; `git for-each-ref` then runs check_refname_format on each line and
+// lists exactly the well-formed ones (the others are reported "ignoring ref with broken name"). Every name must be
+// c13BatchEligible. Names under refs/ have two components, so the one-level rule plays no part.
+func c13GitBatch(c *fw.Ctx, names []string) map[string]bool {
+	const chunk = 40000
+	uniq := map[string]bool{}
+	var list []string
+	for _, n := range names {
+		if !uniq[n] {
+			uniq[n] = true
+			list = append(list, n)
+		}
+	}
+	sort.Strings(list)
+	nch := (len(list) + chunk - 1) / chunk
+	outs := make([][]string, nch)
+	c.ParDo(nch, 0, func(i int) {
+		g, dir := c.InitRepo("c13batch", "", true)
+		blob := g.MustRunIn([]byte{}, "hash-object", "-w", "--stdin").S()
+		var b bytes.Buffer
+		b.WriteString("# pack-refs with: peeled fully-peeled \n")
+		part := list[i*chunk : min(len(list), (i+1)*chunk)]
+		for _, n := range part {
+			b.WriteString(blob + " " + n + "\n")
+		}
+		c.Must(os.WriteFile(filepath.Join(dir, "packed-refs"), b.Bytes(), 0o644), "write packed-refs")
+		r := g.Run("for-each-ref", "--format=%(refname)")
+		if !r.OK() {
+			fw.Abort("git for-each-ref over %d crafted packed-refs lines failed (%d): %.300s", len(part), r.Code, r.Err)
+		}
+		for _, l := range bytes.Split(r.Out, []byte("\n")) {
+			if len(l) > 0 {
+				outs[i] = append(outs[i], string(l))
+			}
+		}
+		os.RemoveAll(dir)
+	})
+	if c.Expired() {
+		return nil
+	}
+	res := make(map[string]bool, len(list))
+	for _, n := range list {
+		res[n] = false
+	}
+	for _, o := range outs {
+		for _, n := range o {
+			if _, ok := res[n]; !ok {
+				fw.Abort("git for-each-ref listed %q which was not asked", n)
+			}
+			res[n] = true
+		}
+	}
+	return res
+}
+
+// c13Extra is the part of the space that the dense 18-symbol enumeration cannot reach: every byte value, valid
+// multi-byte runes (C1 controls, format characters, look-alikes of '/' and '.'), letter-case variants of the
+// fixed words, long components, further ref categories, and the one-edit neighbourhood of realistic names.
+func c13Extra(sigma []string, thorough bool) (names []string, nByteCtx int, bounds map[string]any) {
+	seen := map[string]bool{}
+	add := func(s string) {
+		if s != "" && !seen[s] {
+			seen[s] = true
+			names = append(names, s)
+		}
+	}
+	bounds = map[string]any{}
+	// 1. every byte value in every position class of a component, and every PAIR of byte values
+	ctx1 := []string{"refs/heads/%", "refs/heads/a%", "refs/heads/%a", "refs/heads/a%b", "refs/%/a", "refs/heads/a%/b", "refs/heads/a/%b", "%/a", "a/%", "a%/b",
+		"refs/heads/.%", "refs/heads/%.", "refs/heads/@%", "refs/heads/%{", "refs/heads/%.lock", "refs/heads/a.lock%", "refs/tags/%", "refs/remotes/%", "refs/heads/a%a%a"}
+	for b := 0; b < 256; b++ {
+		for _, t := range ctx1 {
+			add(strings.ReplaceAll(t, "%", string([]byte{byte(b)})))
+		}
+	}
+	nByteCtx = len(names)
+	for b1 := 0; b1 < 256; b1++ {
+		for b2 := 0; b2 < 256; b2++ {
+			p := string([]byte{byte(b1), byte(b2)})
+			add("refs/heads/" + p)
+			add("refs/x/a" + p + "b")
+		}
+	}
+	bounds["byte_contexts"] = ctx1
+	bounds["byte_pairs"] = "all 65536 two-byte strings as a whole component and inside one"
+	// 2. words: runes, case variants, pseudo-refs
+	words := []string{"\u0085", "\u009f", "\u00a0", "\u00ad", "\u200c", "\u200e", "\u2028", "\u2029", "\u202e", "\ufeff", "\u00e9", "e\u0301", "\U0001f600",
+		"\xed\xa0\x80", "\xc0\xaf", "\xc0\xae", "\uff0f", "\uff0e", "\u3002", "\u2024", "\u2215", "\uff20", "\uff5b", "\ufffd",
+		".LOCK", ".Lock", ".lOCK", ".lock.", ".lock.lock", ".loc", ".lockk", "lock", ".lck",
+		"HEAD", "head", "Head", "ORIG_HEAD", "FETCH_HEAD", "MERGE_HEAD", "CHERRY_PICK_HEAD", "BISECT_HEAD", "AUTO_MERGE", "HEAD^", "@", "@@", "-", "--", "-HEAD",
+		"refs", "REFS", "heads", "tags", "remotes", "CON", "nul", "aux.txt", "~1", "A~1", ".git", ".GIT", "git~1", ".gitmodules", "config", "packed-refs", "index.lock"}
+	glue := append([]string{""}, sigma...)
+	for _, w := range words {
+		add(w) // bare (one level)
+		for _, a := range glue {
+			for _, b := range glue {
+				add("refs/heads/" + a + w + b)
+				add("refs/" + a + w + b + "/k")
+				add(a + w + b + "/k")
+			}
+		}
+		for _, p := range []string{"refs/tags/", "refs/remotes/", "refs/remotes/o/", "refs/notes/", "refs/", "refs/heads/a/", "refs/tags/a/"} {
+			add(p + w)
+		}
+	}
+	bounds["words"] = len(words)
+	// 3. long components and long names (no length rule exists in git)
+	for _, n := range []int{249, 250, 251, 254, 255, 256, 257, 511, 512, 1023, 1024, 4095, 4096, 4097, 65535, 65536} {
+		long := strings.Repeat("k", n)
+		add("refs/heads/" + long)
+		add("refs/" + long + "/a")
+		add("refs/heads/" + long + ".lock")
+		add("refs/heads/" + long + ".")
+		add("refs/heads/" + long + "/.a")
+		add(long + "/a")
+		add("refs/heads/" + strings.TrimSuffix(strings.Repeat("a/", n/2), "/"))
+		add("refs/heads/" + strings.Repeat("a/", n/2))
+	}
+	bounds["long_lengths"] = "249..65536 (16 lengths) as one component and as n/2 components"
+	// 4. further categories: every string over the alphabet (one symbol shorter) behind each
+	cats := []string{"refs/remotes/", "refs/remotes/o/", "refs/notes/", "refs/tags/a/", "refs/", "heads/", "refs/heads", "refs/tagsx/", "refs/headsx/", "refs/HEADS/", "refs/Tags/"}
+	l4 := 3
+	if thorough {
+		l4 = 4
+	}
+	for _, s := range fw.Strings(sigma, l4) {
+		for _, p := range cats {
+			add(p + s)
+		}
+	}
+	bounds["more_prefixes"] = cats
+	bounds["more_prefixes_len"] = l4
+	// 5. realistic names and every single edit of them
+	real := []string{"refs/heads/main", "refs/heads/feature/foo-bar", "refs/heads/release-1.2.x", "refs/tags/v1.0.0", "refs/tags/v1.0.0-rc.1", "refs/remotes/origin/HEAD",
+		"refs/remotes/origin/main", "refs/stash", "refs/notes/commits", "refs/pull/123/head", "refs/heads/user@example.com", "refs/heads/dependabot/npm_and_yarn/lodash-4.17.21",
+		"refs/changes/45/12345/6", "refs/heads/日本語", "refs/heads/wip.lock.bak", "refs/original/refs/heads/main", "refs/bisect/bad", "refs/worktree/foo",
+		"refs/replace/1111111111111111111111111111111111111111", "refs/heads/UPPER", "refs/heads/x--y", "refs/heads/@{u}", "refs/tags/-v1", "refs/heads/a.lock", "FETCH_HEAD", "main", "origin/main", "heads/main"}
+	edits := append(append([]string{}, sigma...), "..", "@{", ".lock", "//", "\t", "\n", "\x1f", "\x80", "A", "/.", "./", "/-", "@")
+	for _, r := range real {
+		add(r)
+		for i := 0; i <= len(r); i++ {
+			for _, e := range edits {
+				add(r[:i] + e + r[i:])
+				if i < len(r) {
+					add(r[:i] + e + r[i+1:])
+				}
+			}
+			if i < len(r) {
+				add(r[:i] + r[i+1:])
+			}
+		}
+	}
+	bounds["real_names"] = real
+	bounds["edit_symbols"] = edits
+	return names, nByteCtx, bounds
+}
+
 func init() {
-	fw.Register(&fw.Check{ID: "C13", Level: "model_checking", Run: runC13, QuickBudget: 90, ThoroughBudget: 900})
+	fw.Register(&fw.Check{ID: "C13", Level: "model_checking", Run: runC13, QuickBudget: 240, ThoroughBudget: 1200})
 }
 
 func runC13(c *fw.Ctx) {
@@ -64,8 +252,8 @@ func runC13(c *fw.Ctx) {
 	c.Bound("alphabet", sigma)
 	c.Bound("max_len", maxLen)
 	c.Bound("conformance_len", confLen)
-	c.SetRule("all strings over an 18-symbol alphabet up to max_len, bare and behind refs/heads/, refs/tags/, refs/x/, plus fixed-word splices; ReferenceName.Validate vs a transcription of git's check_refname_format; the transcription is itself replayed against real `git check-ref-format` on every string up to conformance_len; a case is non-trivial when distinct (name, verdict) with at least one '/'; distinct counts (verdict, rule-shape) classes")
-	c.Assume("git 2.39.5 check-ref-format is the reference; literal HEAD excluded (documented special case); extra rule: short name of a branch/tag may not start with '-'")
+	c.SetRule("(a) all strings over an 18-symbol alphabet up to max_len, bare and behind refs/heads/, refs/tags/, refs/x/, refs/heads/a/, plus fixed-word splices; (b) extra names: every byte value 0..255 in 19 component contexts and all 65536 byte pairs (as a component and inside one), 60+ words (valid multi-byte runes incl. C1 controls / format characters / look-alikes of '/' '.' '@' '{', letter-case variants of .lock and HEAD, pseudo-ref names, reserved device and .git names) glued between every pair of alphabet symbols in three contexts, 16 component/name lengths from 249 to 65536 bytes, every alphabet string one symbol shorter behind 11 further prefixes (remotes, notes, nested tags, look-alike categories), and every single insertion/replacement/deletion over 31 edit symbols applied to 28 realistic names; ReferenceName.Validate vs a transcription of git's check_refname_format; the transcription is replayed against real `git check-ref-format` (one process per name) on every string up to conformance_len and on the single-byte sweep names git cannot read from a file, and against real git's packed-refs reader (`git for-each-ref` over crafted packed-refs files, which lists exactly the names check_refname_format accepts) on ALL extra names under refs/, the refs/x/ image of the others, and every dense string up to conformance_len+1; both front-ends are compared with each other where both were asked; a case is non-trivial when distinct (name, verdict) with at least one '/'; distinct counts (verdict, rule-shape) classes")
+	c.Assume("git 2.39.5 check-ref-format is the reference; literal HEAD excluded (documented special case); extra rule: short name of a branch/tag may not start with '-'; a name containing NUL cannot be handed to git at all and counts as rejected (documented rule 4: no byte below \\040)")
 
 	// 1. conformance of the model against real git on the complete small space.
 	g := c.GitHome()
@@ -77,21 +265,52 @@ func runC13(c *fw.Ctx) {
 		}
 		confNames = append(confNames, s, "refs/x/"+s, s+"/a")
 	}
-	c.ParDo(len(confNames), 0, func(i int) {
-		n := confNames[i]
-		if strings.HasPrefix(n, "-") { // git treats a leading dash as an option; covered behind refs/x/
-			return
+	extra, nByteCtx, eb := c13Extra(sigma, c.Thorough())
+	for k, v := range eb {
+		c.Bound(k, v)
+	}
+	c.Bound("extra_names", len(extra))
+	// names of the single-byte sweep that the batch front-end cannot carry (LF, empty or dot components, not under
+	// refs/) are asked one process each as well
+	for _, n := range extra[:nByteCtx] {
+		if !c13BatchEligible(n) && !c13BatchEligible("refs/x/"+n) && !strings.Contains(n, "\x00") {
+			confNames = append(confNames, n)
 		}
-		r := g.Run("check-ref-format", n)
-		if r.Code != 0 && r.Code != 1 {
-			fw.Abort("git check-ref-format %q exit %d: %s", n, r.Code, r.Err)
+	}
+	// 1b. conformance of the model on the LARGE space through the batch front-end (one git process per 40000
+	// names): every extra name, every dense string up to conformance_len+1 behind four prefixes, and for names
+	// that are not under refs/ their image behind refs/x/ (same components, so the same per-component rules).
+	var batch []string
+	addBatch := func(n string) {
+		if c13BatchEligible(n) {
+			batch = append(batch, n)
+		} else if !strings.HasPrefix(n, "refs/") && c13BatchEligible("refs/x/"+n) {
+			batch = append(batch, "refs/x/"+n)
 		}
-		if (r.Code == 0) != gitRefnameOK(n) {
-			fw.Abort("refname model disagrees with real git on %q: git=%v model=%v", n, r.Code == 0, gitRefnameOK(n))
+	}
+	for _, n := range extra {
+		addBatch(n)
+	}
+	for _, s := range fw.Strings(sigma, confLen+1) {
+		for _, p := range []string{"refs/heads/", "refs/tags/", "refs/x/", "refs/heads/a/", "refs/"} {
+			addBatch(p + s)
 		}
-		c.TracesValidated(1)
-	})
-
+	}
+	for _, n := range confNames {
+		addBatch(n)
+	}
+	verdict := c13GitBatch(c, batch)
+	if verdict == nil {
+		c.Incomplete("deadline reached during the batch conformance step")
+		return
+	}
+	c.Bound("batch_conformance_names", len(verdict))
+	for n, ok := range verdict {
+		if ok != gitRefnameOK(n) {
+			fw.Abort("refname model disagrees with real git (packed-refs front-end) on %q: git=%v model=%v", n, ok, gitRefnameOK(n))
+		}
+	}
+	c.TracesValidated(len(verdict))
 	// 2. the real Validate against the model on the full space.
 	prefixes := []string{"", "refs/heads/", "refs/tags/", "refs/x/", "refs/heads/a/"}
 	words := []string{".lock", "@{", "HEAD", "a.lock", ".."}
@@ -130,6 +349,12 @@ func runC13(c *fw.Ctx) {
 				if s == "HEAD" || s == "" {
 					return false
 				}
+				// the minimiser must stay inside the class of the original mismatch: replacing a byte by '@' can
+				// turn any rejected name into an instance of the listed "@ component" defect and the new mismatch
+				// would then be reported under that known key
+				if c13HasAtComponent(s) != c13HasAtComponent(name) {
+					return false
+				}
 				w := gitRefnameOK(s)
 				for _, p := range []string{"refs/heads/", "refs/tags/"} {
 					if strings.HasPrefix(s, p) && strings.HasPrefix(s[len(p):], "-") {
@@ -139,11 +364,16 @@ func runC13(c *fw.Ctx) {
 				gg := plumbing.ReferenceName(s).Validate() == nil
 				return gg != w && gg == got
 			}
-			min := fw.MinString(name, "a/.@{-k", fails)
 			dir := "go-git rejects, git accepts"
 			if got {
 				dir = "go-git accepts, git rejects"
 			}
+			if len(name) > 240 {
+				// minimising a 64 KiB name byte by byte is quadratic; long names form one class
+				c.Fail(dir+": long name", fmt.Sprintf("%s a %d-byte name beginning %s", dir, len(name), fw.Q(name[:40])), map[string]any{"name_len": len(name), "name_head": name[:40], "name_tail": name[len(name)-20:], "go_git_accepts": got, "git_accepts": want})
+				return
+			}
+			min := fw.MinString(name, "a/.@{-k", fails)
 			c.Fail(dir+": "+fw.Q(min), dir+" (minimised from "+fw.Q(name)+")", map[string]any{"name": name, "minimal": min, "go_git_accepts": got, "git_accepts": want})
 		}
 	}
@@ -164,4 +394,41 @@ func runC13(c *fw.Ctx) {
 		}
 	})
 	c.Sample(map[string]any{"name": "refs/heads/a.lock/k", "git_accepts": gitRefnameOK("refs/heads/a.lock/k")})
+	c.States(len(extra))
+	c.ParDo(len(extra), 0, func(i int) {
+		check(extra[i])
+		if i%40009 == 0 {
+			c.Sample(map[string]any{"name": extra[i], "git_accepts": gitRefnameOK(extra[i])})
+		}
+	})
+	// 3. the model against `git check-ref-format` itself, one process per name (slow on a loaded machine: last)
+	spawned := make([]int8, len(confNames)) // 0 not asked, 1 accepted, 2 rejected
+	c.ParDo(len(confNames), 0, func(i int) {
+		n := confNames[i]
+		if strings.HasPrefix(n, "-") { // git treats a leading dash as an option; covered behind refs/x/
+			return
+		}
+		r := g.Run("check-ref-format", n)
+		if r.Code != 0 && r.Code != 1 {
+			fw.Abort("git check-ref-format %q exit %d: %s", n, r.Code, r.Err)
+		}
+		if (r.Code == 0) != gitRefnameOK(n) {
+			fw.Abort("refname model disagrees with real git on %q: git=%v model=%v", n, r.Code == 0, gitRefnameOK(n))
+		}
+		spawned[i] = int8(r.Code) + 1
+		c.TracesValidated(1)
+	})
+
+	// the batch front-end and `git check-ref-format` itself agree wherever both were asked
+	both := 0
+	for i, n := range confNames {
+		if v, ok := verdict[n]; ok && spawned[i] != 0 {
+			both++
+			if v != (spawned[i] == 1) {
+				fw.Abort("git check-ref-format and the packed-refs front-end disagree on %q", n)
+			}
+		}
+	}
+	c.Bound("names_asked_both_ways", both)
+
 }
